@@ -18,7 +18,7 @@ import numpy as np
 from harness import common, nnd_corr, refmetrics
 from harness.common import fmt
 
-COQ_FILES = ["model/Base.v", "model/Lifecycle.v", "proofs/ListAux.v", "proofs/C04Proofs.v"]
+COQ_FILES = ["model/Base.v", "model/Lifecycle.v", "proofs/ListAux.v", "proofs/C04Proofs.v", "proofs/C04Compose.v"]
 SENTINELS = {"pynndescent/pynndescent_.py": ["NNDescent.update", "NNDescent.prepare", "NNDescent.compress_index", "NNDescent._init_search_graph",
                                              "NNDescent.__getstate__", "NNDescent.__setstate__", "NNDescent.neighbor_graph",
                                              "init_from_neighbor_graph", "init_rp_tree"]}
